@@ -277,7 +277,6 @@ class CrashNet:
         self.down_conn = [None] * n     # the boss's end towards node i
         self.alive = [True] * n
         self.sent_shutdown = [False] * n
-        self.half = [False] * n
         self.outreset_done = False
         self.hold_recv = None           # (boss, victim): let the outgoing thread win
         self.blocked_workers = set()
@@ -415,24 +414,13 @@ class CrashNet:
             elif self.alive[i] and self.running(i) \
                     and self.node[i].s.outgoing.items:
                 en.append(('flush', i))
-        for i in range(self.n):
-            if not self.half[i] or not self.alive[i]:
-                continue
-            if i == 0:
-                for c, (cp, sc) in enumerate(zip(self.clients, self.srv_client)):
-                    if not sc.closed and (sc.inbox or cp.comp.conn is None):
-                        en.append(('wake', 0, c))
-            else:
-                uc = self.up_conn[i]
-                if not uc.closed and (uc.inbox or not self.boss_down_open(i)):
-                    en.append(('wake', i, 0))
         if self.hold_recv is not None:
             p, v = self.hold_recv
             items = self.node[p].s.outgoing.items
             if self.alive[p] and self.running(p) and items \
                     and items[0][0] is self.down_conn[v] \
                     and not self.down_conn[v].closed:
-                return [('outreset', p, v)]      # the race the outgoing thread wins
+                return [('flushdrop', p, v)]     # the outgoing thread's send fails first
             if not en or not (self.alive[p] and self.running(p)):
                 self.hold_recv = None
                 return self.enabled()
@@ -527,7 +515,6 @@ class CrashNet:
             sim = None if worker else self.node[i]
             nodes.append({
                 'a': int(self.alive[i]),
-                'h': int(self.half[i]),
                 'r': 1 if worker else int(bool(sim.s.running)),
                 'c': 0 if worker else int(len(sim.s.employees) == 0),
                 'u': 1 if i == 0 else int(not self.up_conn[i].closed),
@@ -707,50 +694,24 @@ class CrashNet:
                 wrote = 1
             lines.append(f'crash {i} {int(trunc)}')
             del wrote
-        elif kind == 'outreset':
-            # the outgoing thread (a real thread) gets ConnectionResetError while
-            # sending to the dead employee v
+        elif kind == 'flushdrop':
+            # the outgoing thread's send to the dead employee v fails with
+            # ConnectionResetError: the real send_outgoing handles it
             _, i, v = tr
             sim = self.node[i]
-            s_ = sim.s
             conn = self.down_conn[v]
             conn.send_error = ConnectionResetError(104, 'Connection reset')
-            exc = []
-
-            def target():
-                try:
-                    sim.cls.send_outgoing(s_)
-                except H.Drained:
-                    pass
-                except BaseException as e:      # noqa: BLE001 - recorded
-                    exc.append(e)
-            n0 = len(self.log)
-            th = threading.Thread(target=target, daemon=True)
-            s_.outgoing_thread = th
-            s_.outgoing.budget = 1
-            th.start()
-            th.join(60)
-            s_.outgoing.budget = 0
-            conn.send_error = None
-            for x in self.log[n0:]:
-                if x[0] == 'send' and x[2][0] == self.M.SHUTDOWN:
-                    for c in self.children[i]:
-                        if x[1] is self.down_conn[c]:
-                            self.sent_shutdown[c] = True
-            self.outreset_exc = exc
-            self.outreset_done = True
-            self.half[i] = True
-            self.hold_recv = None
-            lines.append(f'outReset {i}')
-        elif kind == 'wake':
-            _, i, c = tr
-            sim = self.node[i]
+            sim.s.outgoing.budget = 1
             try:
-                sim.cls.run(sim.s)      # loop condition false: `finally` clause
-            except Exception as e:
-                sim.escaped = e
-            self.half[i] = False
-            lines.append(f'wake {i} {c}')
+                sim.cls.send_outgoing(sim.s)
+            except H.Drained:
+                pass
+            finally:
+                sim.s.outgoing.budget = 0
+                conn.send_error = None
+            self.outreset_done = True
+            self.hold_recv = None
+            lines.append(f'flushDrop {i}')
         elif kind == 'werror':
             # Worker._loop: an exception outside task code -> ERROR(str) upstream,
             # the loop ends, the process exits
@@ -890,7 +851,7 @@ def compare(real, model):
     """List of differences between the observed and the model state."""
     diffs = []
     for i, (a, b) in enumerate(zip(real['nodes'], model['nodes'])):
-        for k in ('a', 'r', 'h', 'c', 'u', 'd', 'S', 'y', 'out', 'in'):
+        for k in ('a', 'r', 'c', 'u', 'd', 'S', 'y', 'out', 'in'):
             if k == 'c' and not a['a']:
                 continue
             if a[k] != b[k]:
@@ -1095,10 +1056,10 @@ def oracles(case):
             continue
         where = 'orphan' if i in orphan_zone else 'tree'
         if net.kind[i] == 2:
-            bad.append((f'survivor:{where}:worker',
+            bad.append((f'survivor:{where}:worker:{vk}',
                         f'worker {i} is alive at quiescence'))
         elif net.running(i):
-            bad.append((f'survivor:{where}:manager',
+            bad.append((f'survivor:{where}:manager:{vk}',
                         f'manager {i} keeps running at quiescence'))
     return bad
 
@@ -1135,3 +1096,465 @@ def mirror(ck_driver, case):
             diffs.append(f'step {k} `{ln}`: ' + '; '.join(d[:4]))
             break
     return diffs, stats
+
+
+# ------------------------------------------------- client side (real Compiler)
+class ScriptConn:
+    """A connection that delivers `msgs`, then fails with `exc` (EOFError,
+    ConnectionResetError, BrokenPipeError or OSError('handle is closed')); the
+    failure can also strike at the `send` (`fail_send`) or at the first `poll`
+    (`fail_poll`: a closed handle)."""
+
+    def __init__(self, pre, post, exc, fail_send=False, fail_poll=False):
+        self.pre = collections.deque(pre)     # readable before the request
+        self.post = collections.deque(post)   # arrives after the request
+        self.exc = exc
+        self.fail_send = fail_send
+        self.fail_poll = fail_poll
+        self.sent = []
+        self.requested = False
+        self.closed = False
+
+    def _q(self):
+        return self.post if self.requested else self.pre
+
+    def poll(self, timeout=0.0):
+        if self.fail_poll:
+            raise OSError('handle is closed')
+        # after the buffered messages the pending failure makes the socket readable
+        return bool(self._q()) or self.requested or self.pre_eof
+
+    pre_eof = False
+
+    def recv(self):
+        q = self._q()
+        if q:
+            return q.popleft()
+        raise self.exc() if isinstance(self.exc, type) else self.exc
+
+    def send(self, m):
+        if self.fail_send:
+            raise self.exc() if isinstance(self.exc, type) else self.exc
+        self.sent.append(m)
+        self.requested = True
+
+    def close(self):
+        self.closed = True
+
+
+def client_matrix(ck_driver, thorough=False):
+    """Real `Compiler.submit/status/result/cancel/compile` against a connection
+    that fails at every possible point.  Returns (violations, n, samples)."""
+    import pickle
+    import uuid
+    from bqskit.ir.circuit import Circuit
+    from bqskit.runtime.message import RuntimeMessage as M
+    from bqskit.compiler.status import CompilationStatus
+    import bqskit.compiler.compiler as cmod
+    cmod.time = types.SimpleNamespace(sleep=lambda s: None)
+    log = (M.LOG, pickle.dumps(('bqskit.c14', 10, 'a log line')))
+    tid = uuid.uuid4()
+    excs = [EOFError, ConnectionResetError, BrokenPipeError,
+            OSError('handle is closed')]
+    replies = {'status': (M.STATUS, CompilationStatus.RUNNING),
+               'result': (M.RESULT, 'the-result'),
+               'cancel': (M.CANCEL, None)}
+    viol, n, samples, model_lines, expect = [], 0, [], [], []
+
+    def tokens(msgs):
+        out = []
+        for m in msgs:
+            out.append({M.LOG: 'o.1', M.RESULT: 'R.0.0', M.STATUS: 'r.9',
+                        M.CANCEL: 'r.2', M.ERROR: 'X'}[m[0]])
+        return out
+
+    for method in ('submit', 'status', 'result', 'cancel', 'compile'):
+        for exc in excs:
+            ename = exc.__name__ if isinstance(exc, type) else 'closed'
+            points = []
+            # failure before anything is sent
+            points.append(('pre-drain', dict(pre=[], post=[], pre_eof=True)))
+            points.append(('pre-drain-after-log',
+                           dict(pre=[log], post=[], pre_eof=True)))
+            points.append(('send', dict(pre=[], post=[], fail_send=True)))
+            points.append(('poll-closed', dict(pre=[], post=[],
+                                               fail_poll=True)))
+            if method != 'submit':
+                points.append(('recv', dict(pre=[], post=[])))
+                points.append(('recv-after-log', dict(pre=[], post=[log])))
+                points.append(('recv-after-2-logs',
+                               dict(pre=[], post=[log, log])))
+                rk = 'result' if method == 'compile' else method
+                points.append(('after-reply', dict(pre=[],
+                                                   post=[replies[rk]])))
+                points.append(('after-reply-and-log',
+                               dict(pre=[], post=[replies[rk], log])))
+            for pname, kw in points:
+                pre_eof = kw.pop('pre_eof', False)
+                conn = ScriptConn(exc=exc, **kw)
+                conn.pre_eof = pre_eof
+                comp = H.new_client_compiler(conn)
+                try:
+                    if method == 'submit':
+                        r = comp.submit(Circuit(1), [C14Pass(0, 1, 1, 0)])
+                    elif method == 'compile':
+                        r = comp.compile(Circuit(1), [C14Pass(0, 1, 1, 0)])
+                    else:
+                        r = getattr(comp, method)(tid)
+                    outcome = ('returned', repr(r)[:40])
+                except RuntimeError as e:
+                    outcome = ('RuntimeError', str(e)[:60])
+                except BaseException as e:     # noqa: BLE001 - observed
+                    outcome = (type(e).__name__, str(e)[:60])
+                n += 1
+                key = f'{method}:{pname}:{ename}'
+                if len(samples) < 4:
+                    samples.append({'case': key, 'outcome': outcome})
+                reaches = not (pname in ('pre-drain', 'pre-drain-after-log')
+                               and not pre_eof)
+                if outcome[0] == 'returned':
+                    viol.append((f'client-returned:{method}:{pname}', key,
+                                 outcome))
+                elif outcome[0] != 'RuntimeError' and not (
+                        method == 'compile' and pname.startswith('after-reply')):
+                    # compile(): the trailing drain after result() is outside the
+                    # try: the raw exception escapes (still an exception)
+                    viol.append((f'client-raised-{outcome[0]}:{method}:{pname}',
+                                 key, outcome))
+                elif method != 'compile' and comp.conn is not None:
+                    viol.append((f'client-keeps-conn:{method}:{pname}', key,
+                                 outcome))
+                del reaches
+                # the model's receive loops on the same input (EOF flavour only)
+                if exc is EOFError and not kw.get('fail_send') \
+                        and not kw.get('fail_poll'):
+                    if pname.startswith('pre-drain'):
+                        model_lines.append(
+                            'predrain 1 | ' + ' '.join(tokens(kw['pre'])))
+                        expect.append(('raises', key))
+                    elif method != 'submit':
+                        model_lines.append(
+                            'recvall 1 | ' + ' '.join(tokens(kw['post'])))
+                        expect.append(('raised', key))
+    out = ck_driver('crash', model_lines)
+    for ans, (want, key) in zip(out, expect):
+        if ans != want:
+            viol.append((f'client-model-mismatch:{key}', key, ans))
+    return viol, n, samples
+
+
+# ------------------------------------------------------------------ the check
+def drv(machine, lines):
+    import subprocess
+    from harness.common import DRIVER
+    r = subprocess.run([str(DRIVER), machine], input='\n'.join(lines) + '\n',
+                       text=True, stdout=subprocess.PIPE,
+                       stderr=subprocess.PIPE, timeout=600)
+    if r.returncode != 0:
+        raise InfraError(f'bqdriver {machine} failed: {r.stderr[-500:]}')
+    return r.stdout.split('\n')[:-1]
+
+
+def _quiet():
+    import sys
+    import warnings
+    sys.unraisablehook = lambda *a: None    # coroutines of abandoned tasks
+    warnings.simplefilter('ignore')
+    logging.disable(logging.CRITICAL)
+
+
+SMALL = [[('submit', 1, 2, 0), ('result', 0)]]
+
+
+def run_one(topo, ncl, script, seed, prefix, fault, second):
+    case = Case(topo, ncl, script, seed, prefix, fault, second).run()
+    diffs, stats = mirror(drv, case)
+    bad = oracles(case) if not diffs or True else []
+    bound_ok = True
+    if stats['pot0'] is not None and stats['pot'] is not None:
+        bound_ok = stats['pot'] + stats['crit'] <= stats['pot0'] + stats['growth']
+    net = case.net
+    vk = None
+    if fault is not None:
+        vk = {1: 'manager', 2: 'worker'}[net.kind[fault[1]]]
+    return {
+        'args': [topo, ncl, script, seed, prefix, fault, second],
+        'faulted': case.fault_at is not None, 'victim_kind': vk,
+        'steps': case.steps, 'labels': len(case.lines), 'diffs': diffs,
+        'oracle': bad, 'bound_ok': bound_ok, 'stats': stats,
+        'quiescent': case.quiescent, 'outreset': net.outreset_done,
+        'returned': len(net.returned), 'raised': len(net.raised),
+        'syslog': sum(len(net.node[i].system_errors) for i in range(net.n)
+                      if net.kind[i] != 2),
+        'keyerror_after_shutdown': any(
+            'KeyError' in e for i in range(net.n) if net.kind[i] != 2
+            for e in net.node[i].system_errors),
+        'phase': phase_of(case),
+    }
+
+
+def phase_of(case):
+    """where the fault fell (for the coverage table)"""
+    net = case.net
+    if case.fault_at is None:
+        return 'none'
+    k = case.prefix_done
+    submitted = any(t for ts in net.tids for t in ts)
+    if k == 0 or not submitted:
+        return 'before-submit'
+    srv = net.server.s
+    if srv.mailbox_counter == 0:
+        return 'submit-in-flight'
+    return 'during-compilation' if (net.returned or net.raised or True) \
+        else 'idle'
+
+
+def chunk_exhaustive(args):
+    """every prefix x every victim of one small workload"""
+    _quiet()
+    topo, ncl, script, seed = args
+    base = Case(topo, ncl, script, seed, 10 ** 6, None).run()
+    T = base.steps
+    n = len(TOPOS[topo][1])
+    res = [run_one(topo, ncl, script, seed, 10 ** 6, None, None)]
+    for prefix in range(T + 1):
+        for victim in range(1, n):
+            trunc = (prefix + victim) % 3 == 0
+            res.append(run_one(topo, ncl, script, seed, prefix,
+                               ('crash', victim, trunc), None))
+    return res
+
+
+def chunk_sampled(args):
+    """seeded sample: crash / werror / outreset, optional second crash"""
+    _quiet()
+    topo, ncl, script, seed, count = args
+    rng = random.Random(seed * 9176 + 11)
+    base = Case(topo, ncl, script, seed, 10 ** 6, None).run()
+    T = base.steps
+    n = len(TOPOS[topo][1])
+    kinds = [k for _, k in TOPOS[topo][1]]
+    res = [run_one(topo, ncl, script, seed, 10 ** 6, None, None)]
+    for _ in range(count):
+        prefix = rng.randrange(T + 1)
+        victim = rng.randrange(1, n)
+        r = rng.random()
+        if kinds[victim] == 2 and r < 0.15:
+            fault = ('werror', victim)
+        elif kinds[victim] == 2 and r < 0.35:
+            fault = ('outreset', victim)
+        else:
+            fault = ('crash', victim, rng.random() < 0.3)
+        second = None
+        if rng.random() < 0.4:
+            second = (rng.randrange(0, 10), rng.randrange(1, n),
+                      rng.random() < 0.3)
+        res.append(run_one(topo, ncl, script, seed, prefix, fault, second))
+    return res
+
+
+KNOWN_WHAT = {
+    'outgoing-reset': 'worker/manager killed while its boss\'s OUTGOING THREAD '
+    'sends to it: ConnectionResetError -> handle_disconnect on the outgoing '
+    'thread -> handle_shutdown raises in outgoing_thread.join(): clients are '
+    'never closed / upstream never told; blocked clients hang',
+    'orphan': 'a manager whose BOSS manager died only unregisters the upstream '
+    'connection and keeps running with its workers (orphans)',
+}
+
+
+def run(ck: Check):
+    import multiprocessing as mp
+    _quiet()
+    thorough = ck.tier == 'thorough'
+    for p in H.check_attr_lists():
+        ck.violation('harness-attr-drift', 'the attributes a runtime '
+                     f'__init__ creates changed: {p}', {'problem': p},
+                     found_input=False)
+    if not ck.lean_obligations():
+        ck.violation('lean-obligations', 'Props/C14.lean does not check: '
+                     + (ck.proof_failure or '')[-1500:], {}, found_input=False)
+
+    # (A2) real processes, concurrently with the in-process batch
+    a2 = {'results': [], 'skipped': None}
+    a2_thread = threading.Thread(target=_a2_batch, args=(ck, a2, thorough),
+                                 daemon=True)
+    a2_thread.start()
+
+    rng = ck.rng
+    chunks = []
+    ex_topos = ['att2', 'det1x2'] if not thorough else \
+        ['att2', 'att3', 'det1x2', 'det2x1', 'deep']
+    for topo in ex_topos:
+        chunks.append(('ex', (topo, 1, SMALL, rng.randrange(10 ** 6))))
+    per = 6 if not thorough else 40
+    plan = [('att2', 1), ('att3', 1), ('det1x2', 1), ('det1x2', 2),
+            ('det2x1', 2), ('det2x2', 1), ('deep', 1), ('deep', 2)]
+    reps = 1 if not thorough else 6
+    for _ in range(reps):
+        for topo, ncl in plan:
+            script = make_script(rng, ncl)
+            chunks.append(('sa', (topo, ncl, script, rng.randrange(10 ** 6),
+                                  per)))
+    nproc = min(8, len(chunks))
+    results = []
+    with mp.get_context('fork').Pool(nproc) as pool:
+        asyncs = [pool.apply_async(
+            chunk_exhaustive if k == 'ex' else chunk_sampled, (a,))
+            for k, a in chunks]
+        for a in asyncs:
+            results += a.get(timeout=1500 if thorough else 600)
+
+    n_faulted = 0
+    for r in results:
+        ck.count((r['args'][0], r['args'][4], r['args'][5], r['args'][6],
+                  r['args'][2]), nontrivial=r['faulted'], n=r['labels'])
+        ck.bump('topology', r['args'][0])
+        ck.bump('fault_phase', r['phase'])
+        if r['faulted']:
+            n_faulted += 1
+            ck.bump('fault_kind', str(r['args'][5][0]) + ':'
+                    + str(r['victim_kind']))
+            ck.bump('second_crash', str(r['args'][6] is not None))
+            ck.bump('client_outcomes', 'raised', r['raised'])
+            ck.bump('client_outcomes', 'returned-before-fault', r['returned'])
+            if r['keyerror_after_shutdown']:
+                ck.bump('detached_keyerror_after_shutdown_logged')
+            ck.bump('critical_deliveries', str(r['stats']['crit']))
+        ck.coverage['traces_validated_against_impl'] += 1
+        if len(ck.coverage['samples']) < 4 and r['faulted']:
+            ck.sample({'topology': r['args'][0], 'prefix': r['args'][4],
+                       'fault': r['args'][5], 'second': r['args'][6],
+                       'transitions': r['steps'], 'bound': r['stats'],
+                       'oracle': r['oracle']})
+        replay = {'kind': 'inproc', 'args': r['args']}
+        if r['diffs']:
+            # model / implementation disagree: is the stated property violated?
+            real_bad = [o for o in r['oracle']
+                        if not _is_known(o[0])]
+            ck.violation(
+                'model-mismatch:' + r['args'][0] + ':' + str(r['args'][5]
+                                                             and r['args'][5][0]),
+                'real runtime objects and Model/Crash.lean disagree: '
+                + r['diffs'][0][:300], replay, found_input=bool(real_bad))
+        if not r['bound_ok']:
+            ck.violation('bound-violated', 'potential + critical > B + growth '
+                         f'on a real run: {r["stats"]}', replay,
+                         found_input=False)
+        for sig, text in r['oracle']:
+            ck.violation(_sig(sig, r), text, replay, found_input=True)
+    ck.coverage['faulted_runs'] = n_faulted
+
+    viol, n, samples = client_matrix(drv, thorough)
+    ck.count('client-matrix', n=n)
+    ck.coverage['client_matrix_cases'] = n
+    for sig, key, outcome in viol:
+        ck.violation(sig, f'Compiler call {key}: {outcome}',
+                     {'kind': 'client', 'case': key}, found_input=True)
+
+    a2_thread.join(timeout=2400 if thorough else 420)
+    if a2_thread.is_alive():
+        raise InfraError('real-process batch did not finish')
+    _a2_report(ck, a2)
+
+    ck.coverage['rule'] = (
+        'real DetachedServer/AttachedServer/Manager/Worker/Compiler objects, '
+        'one real run-loop iteration per transition, crash after every prefix '
+        'of small workloads + seeded samples (second crash, truncated frame, '
+        'worker runtime error, outgoing-thread reset); every node state, '
+        'channel, flag, table and client outcome compared with bqdriver crash '
+        'after every transition; direct oracles at quiescence; real-process '
+        'SIGKILL runs')
+    ck.assumptions += [
+        'handler atomicity: one run-loop iteration / one outgoing item / one '
+        'worker step is a transition (the GIL interleavings inside a handler '
+        'are not explored)',
+        'OS truths only validated by the real-process runs (exploration, not '
+        'proof): a dead peer yields EOF after the buffered data, process exit, '
+        'process.join() returning, time bounds',
+        'ordinary traffic is abstracted to `other` tokens whose handler '
+        'effects are inputs of the model (C07/C13/C15 own those handlers)',
+    ]
+
+
+def _is_known(sig):
+    return 'outgoing-reset' in sig or sig.startswith('survivor:orphan')
+
+
+def _sig(sig, r):
+    return sig
+
+
+def _a2_batch(ck, a2, thorough):
+    if os.environ.get('C14_NO_A2'):
+        a2['skipped'] = 'disabled by C14_NO_A2 (development switch)'
+        return
+    try:
+        from harness import c14_procs as P
+    except Exception as e:      # noqa: BLE001
+        a2['skipped'] = f'c14_procs not importable: {e}'
+        return
+    try:
+        rng = random.Random(ck.seed * 7 + 1)
+        cases = P.default_cases(rng, 200 if thorough else 6)
+        t_end = time.time() + (1800 if thorough else 130)
+        for case in cases:
+            if time.time() > t_end:
+                a2['skipped'] = (a2['skipped'] or '') + \
+                    f' time budget reached after {len(a2["results"])} runs;'
+                break
+            res = P.run_case(case, lock_wait=(600 if thorough else 40))
+            if res.get('lock_busy'):
+                a2['skipped'] = (a2['skipped'] or '') + \
+                    ' runtime lock busy (another check holds a runtime);'
+                if not thorough:
+                    break
+                continue
+            a2['results'].append((case, res))
+    except Exception as e:      # noqa: BLE001
+        import traceback
+        a2['error'] = ''.join(traceback.format_exception(e))[-1500:]
+
+
+def _a2_report(ck, a2):
+    if a2.get('error'):
+        raise InfraError('real-process batch failed: ' + a2['error'])
+    ck.coverage['real_process_runs'] = len(a2['results'])
+    if a2['skipped']:
+        ck.coverage['real_process_skipped'] = a2['skipped'].strip()
+    for case, res in a2['results']:
+        tag = f"{case['mode']}/{case['victim']}/{case['phase']}/" \
+              f"{case.get('workload')}/{case.get('call')}" \
+              f"{'/stop' if case.get('stop_first') else ''}"
+        ck.count(('a2', tag, case.get('seed')))
+        ck.bump('real_process', tag)
+        if res.get('infra'):
+            ck.bump('real_process_infra_trouble')
+            continue
+        replay = {'kind': 'procs', 'case': case,
+                  'observed': {k: res.get(k) for k in (
+                      'client', 'exc_type', 'client_seconds', 'survivors',
+                      'second_call', 'phase_reached', 'victim_role')}}
+        role = res.get('victim_role', case['victim'])
+        stop = ':sigstop' if case.get('stop_first') else ''
+        if res.get('client') == 'hang':
+            ck.violation(f'real:client-hang:{case["mode"]}:{role}:'
+                         f'{case["phase"]}{stop}',
+                         f'blocked client call did not return within the bound '
+                         f'after SIGKILL of a {role} ({tag})', replay, True)
+        elif res.get('client') == 'returned' and case['phase'] != 'during_shutdown' \
+                and res.get('result_complete') is False:
+            ck.violation(f'real:incomplete-result:{case["mode"]}:{role}',
+                         f'a value was returned that is not the complete '
+                         f'output ({tag})', replay, True)
+        if res.get('second_call') in ('returned', 'hang'):
+            ck.violation(f'real:second-call-{res["second_call"]}:'
+                         f'{case["mode"]}:{role}',
+                         f'a call after the failure did not raise ({tag})',
+                         replay, True)
+        if res.get('survivors'):
+            roles = sorted({s['role'] for s in res['survivors']})
+            zone = 'orphan' if case['victim'] == 'midmanager' else 'tree'
+            ck.violation(f'real:survivors:{zone}:{case["mode"]}:{role}{stop}',
+                         f'runtime processes still alive after the bound: '
+                         f'{roles} ({tag})', replay, True)
